@@ -1,7 +1,7 @@
 SPECIFICATION Spec
 CONSTANTS
   Users = {u1, u2, u3}
-  NConns = 4
+  NConns = 3
   MaxC = 2
   MinC = 1
   Fixed = TRUE
